@@ -182,6 +182,7 @@ func (workerPoolSelf *DefaultWorkerPool) generateWorkerWithMaximum(maximum int) 
 	workerPoolSelf.workerCount++
 	verifPoint("wp.gen.counted", workerPoolSelf)
 	isBusy := false
+	hasLeft := false
 
 	go func() {
 		// Recover & Recycle
@@ -196,7 +197,9 @@ func (workerPoolSelf *DefaultWorkerPool) generateWorkerWithMaximum(maximum int) 
 			verifPoint("wp.worker.exit.pre", workerPoolSelf)
 
 			workerPoolSelf.lock.Lock()
-			workerPoolSelf.workerCount--
+			if !hasLeft {
+				workerPoolSelf.workerCount--
+			}
 			if isBusy {
 				workerPoolSelf.workerBusy--
 			}
@@ -237,14 +240,17 @@ func (workerPoolSelf *DefaultWorkerPool) generateWorkerWithMaximum(maximum int) 
 				}
 			case <-time.After(workerPoolSelf.workerExpiryDuration):
 				verifPoint("wp.worker.expired", workerPoolSelf)
-				workerPoolSelf.lock.RLock()
+				// Decide and leave in one critical section: several idle workers must not all see the same count
+				workerPoolSelf.lock.Lock()
 				workerCount := workerPoolSelf.workerCount
 				if workerCount > workerPoolSelf.workerSizeStandBy ||
 					workerCount > workerPoolSelf.workerSizeMaximum {
-					workerPoolSelf.lock.RUnlock()
+					workerPoolSelf.workerCount--
+					hasLeft = true
+					workerPoolSelf.lock.Unlock()
 					break loopLabel
 				}
-				workerPoolSelf.lock.RUnlock()
+				workerPoolSelf.lock.Unlock()
 			}
 		}
 	}()
